@@ -3,7 +3,7 @@ import logging
 import os
 import sys
 
-sys.path.insert(0, '/verif/py')
+sys.path.insert(0, os.path.join(os.environ.get('VERIF_ROOT', '/verif'), 'py'))
 logging.disable(logging.CRITICAL)
 
 
@@ -15,7 +15,8 @@ def main():
     ap.add_argument('--replay')
     a = ap.parse_args()
     import pysparkling
-    assert os.path.realpath(pysparkling.__file__).startswith('/repo/'), pysparkling.__file__
+    repo = os.path.realpath(os.environ.get('VERIF_REPO', '/repo'))
+    assert os.path.realpath(pysparkling.__file__).startswith(repo + '/'), pysparkling.__file__
     from common import harness
     sys.exit(harness.run_property(a.prop.upper(), a.tier, a.seed, a.replay))
 
